@@ -767,7 +767,32 @@ func (c *Ctx) rulesC08nb() {
 			}
 		}
 	}
-	if n < 2 {
-		c.undecided(fmt.Sprintf("C08.nb: only %d sends on errInternal found (processHandlers and Eval expected)", n))
+	if n < 1 {
+		c.undecided("C08.nb: no send on errInternal found")
+	}
+	// the timeout paths still report: processHandlers and Eval reach a send (directly or through a helper)
+	reach := c.staticClosure(func(f *ssa.Function) bool {
+		for _, b := range f.Blocks {
+			for _, ins := range b.Instrs {
+				switch x := ins.(type) {
+				case *ssa.Send:
+					if loadOfField(x.Chan) == fld {
+						return true
+					}
+				case *ssa.Select:
+					for _, st := range x.States {
+						if st.Dir == types.SendOnly && loadOfField(st.Chan) == fld {
+							return true
+						}
+					}
+				}
+			}
+		}
+		return false
+	})
+	for _, k := range []string{pm + ":Machine.processHandlers", pm + ":Machine.Eval"} {
+		if f := c.fn(k); f != nil {
+			c.check(reach[f], "C08.nb", k+" reports its timeout on errInternal", f.Pos(), "no send on errInternal is reachable from it any more: timeouts are no longer reported")
+		}
 	}
 }
